@@ -101,12 +101,15 @@ theorem C13_multiset_distrib {g : List Nat → List Nat} (hg : Distrib g) (hwf :
   simpa [FMv] using this.symm
 
 /-- **Every generator's return value is collected**: at a clean end `queue.returned` — which is
-what the consumer's `StopIteration` carries — is a permutation of all generators' return values. -/
+what the consumer's `StopIteration` carries — is a permutation of all the values carried by the
+`StopIteration`s that ended the producers' iterators: `ret` for a generator's `return ret`, `ret :: more`
+for an iterator that forwards an upstream queue's `StopIteration(*returned)` (every argument is kept, not
+only the first — `enqueue_from_iterator`'s `_stop_enqueue(*e.args)`). -/
 theorem C13_returns (hwf : WF inputs prods)
     (h : Reachable F (Piter.init cap bm mw ns soe inputs prods) c)
     {t0 : PThread} (h0 : c.ths[0]? = some t0) {r : List Nat} (hout : t0.iterOutcome = some (.stop r))
     (he : t0.early = false) :
-    c.sh.returned = r ∧ r.Perm (prods.map (·.ret)) :=
+    c.sh.returned = r ∧ r.Perm (prods.flatMap (fun p => p.ret :: p.more)) :=
   let f := end_facts h (C13_covered_of_wf hwf) h0 hout he
   ⟨f.2.2.2.1, f.2.2.2.2.1⟩
 
@@ -172,8 +175,11 @@ only enabled then (`C13_shutdown_joins`), has returned — and the consumer is p
 
 Full-strength statement (NOT proved here — `_partial`): the same conclusion without `hlive`, i.e.
 `Reachable F (init …) c → Quiescent F c → (∀ t ∈ c.ths, t.isProd → t.q.pc = .done) ∧ (consumer at fin)`,
-together with "there is no infinite execution".  Missing: the no-lost-wake-up invariant and the variant of
-the queue LTS (C04Live/C05Live, in progress elsewhere) lifted through the embedding `qcfg`, plus the two
+together with "there is no infinite execution".  For the queue LTS itself these are now theorems
+(`Properties/C04Live.lean`: `C04_no_lost_wakeup`, `C04_no_deadlock`, `C04_terminates`).  Missing here: lifting
+them through the embedding `qcfg` — the queue LTS fixes every producer's source in its `Prog` while here the
+producers pull from a shared, schedule-dependent input, and the consumer switches from the `get_batch` loop to
+`maybe_stop` — plus the two
 new blocking operations of this layer (the input lock: its owner never blocks while holding it; the pool:
 a queued task starts as soon as a running one ends). -/
 theorem C13_threads_end_partial
